@@ -7,7 +7,7 @@
    node path printed in the error's message (the public carrier of the path).
    The model gives the SET of legal answers (parallel failures: any one may be reported);
    the observation must be one of them.  Messages are never compared. *)
-From Eino Require Import Base.Util Model.Errors Model.ErrorsFwd.
+From Eino Require Import Base.Util Model.Errors Model.ErrorsFwd Model.ErrorsResume.
 
 Inductive obs : Type := OOk | OErr (p : proj) | OItem (p : proj) | OPanic | OHang.
 
@@ -60,12 +60,14 @@ Definition obs_eqb (a b : obs) : bool :=
 Inductive ccase : Type :=
 | Case (F : forest) (p : paradigm) (cancel_before : bool) (in_item : option err) (o : obs)
 | CaseN (F : forest) (p : paradigm) (cancel_before : bool) (in_item : option err) (os : list obs)
+| CaseR (F : forest) (p : paradigm) (cancel_before : bool) (in_item : option err) (os : list obs)   (* interrupted runs resumed from their checkpoint until they no longer interrupt: every final observation *)
 | FwdCase (srcs : list (list selem)) (o : fobs)
 | FwdChild (src : list selem) (o : fobs).   (* one child of a copied source read directly *)
 
 Definition legal (c : ccase) : list (option obs) :=
   match c with
   | Case F p cb ii _ | CaseN F p cb ii _ => map obs_of (answers F p cb ii)
+  | CaseR F p cb ii _ => map obs_of (resumed_answers F p cb ii)
   | FwdCase _ _ | FwdChild _ _ => []
   end.
 
@@ -75,7 +77,7 @@ Definition is_legal (ls : list (option obs)) (o : obs) : bool :=
 Definition bad (c : ccase) : bool :=
   match c with
   | Case F p cb ii o => negb (is_legal (legal c) o)
-  | CaseN F p cb ii os => let ls := legal c in negb (forallb (is_legal ls) os) || match os with [] => true | _ => false end
+  | CaseN F p cb ii os | CaseR F p cb ii os => let ls := legal c in negb (forallb (is_legal ls) os) || match os with [] => true | _ => false end
   | FwdCase srcs o => negb (fwd_legal srcs o)
   | FwdChild src o => negb (child_legal src o)
   end.
